@@ -14,6 +14,19 @@ let child kind : z list -> z list =
   | "upper" -> (fun l -> List.map (fun c -> let i = int_of_z c in if i >= 97 && i <= 122 then z_of_int (i - 32) else c) l)
   | _ -> failwith "child"
 
+(* children that break the line structure, as functions on the whole stream *)
+let split_lines (l : z list) : z list list =
+  let rec go cur acc = function
+    | [] -> List.rev (if cur = [] then acc else List.rev cur :: acc)
+    | c :: r -> if int_of_z c = 10 then go [] (List.rev cur :: acc) r else go (c :: cur) acc r in
+  go [] [] l
+let join_nl (ls : z list list) : z list = List.concat (List.map (fun l -> l @ [z_of_int 10]) ls)
+let stream_child kind : z list -> z list =
+  match kind with
+  | "drop2" -> (fun inp -> join_nl (List.filteri (fun i _ -> i <> 1) (split_lines inp)))
+  | "extra" -> (fun inp -> join_nl (split_lines inp) @ [z_of_int 88; z_of_int 10])
+  | k -> line_child (child k)
+
 let rec pairs l = match l with a :: b :: r -> let (p, d) = pairs r in (unh a :: p, unh b :: d) | _ -> ([], [])
 
 let () =
@@ -33,6 +46,26 @@ let () =
          | TBadUtf8 -> print_endline "BAD"
          | TFuel -> print_endline "FUEL"
          | TChildShort -> print_endline "SHORT")
+      | ["TS"; w; k; d; kind; inp] ->
+        (match foldfilter_stream (opts w k d) (stream_child kind) fold_feeder_strip_cr fold_collector_strip_cr (unh inp) with
+         | TOk o -> print_endline ("OK " ^ hx o)
+         | TBadUtf8 -> print_endline "BAD"
+         | TFuel -> print_endline "FUEL"
+         | TChildShort -> print_endline "SHORT")
+      | ["TD"; wstr; k; dstr; kind; inp] ->
+        (match foldfilter_cli2 (unh wstr) (k = "1") (unh dstr) (child kind) (unh inp) with
+         | CUsage -> print_endline "USAGE"
+         | CRun (TOk o) -> print_endline ("OK " ^ hx o)
+         | CRun TBadUtf8 -> print_endline "BAD"
+         | CRun TFuel -> print_endline "FUEL"
+         | CRun TChildShort -> print_endline "SHORT")
+      | ["TW"; wstr; k; d; kind; inp] ->
+        (match foldfilter_cli (unh wstr) (k = "1") (delims d) (child kind) (unh inp) with
+         | CUsage -> print_endline "USAGE"
+         | CRun (TOk o) -> print_endline ("OK " ^ hx o)
+         | CRun TBadUtf8 -> print_endline "BAD"
+         | CRun TFuel -> print_endline "FUEL"
+         | CRun TChildShort -> print_endline "SHORT")
       | "C" :: w :: k :: d :: l :: _n :: rest ->
         let (ps, ds) = pairs rest in
         print_endline (if check_wrap (unh l) (opts w k d) ps ds then "1" else "0")
